@@ -259,16 +259,16 @@ def run(ctx):
 
     for fk0 in sorted(reach):
         fk = fk0
-        b = prog.body(fk)
+        b = prog.raw_body(fk)
         f = prog.fns[fk]
-        block_ids = list(b.rblocks)
+        block_ids = list(b.rblocks)        # the sites of the function itself (spliced-in blocks are numbered after them)
         if f.get("kind") != "Closure":
             # sites are those of the function itself; values are resolved with its private helpers spliced in (same block numbering)
             try:
                 from . import roles as _roles
                 b = _roles.ib(prog, fk)
             except Exception:
-                b = prog.body(fk)
+                b = prog.raw_body(fk)
         if f.get("kind") == "Closure":
             cip = closure_in_parent(fk0)
             if cip:
